@@ -132,6 +132,13 @@ class AbstractJunction(AbstractCondition, ABC):
     def __iter__(self):
         return iter(sorted(self.conditions))
 
+    def __invert__(self):
+        """
+        The fits that do not match this combination of conditions
+        """
+        from .query.abstract import InvertedQuery
+        return InvertedQuery(self)
+
     @property
     def tables(self) -> Set[Table]:
         """
